@@ -21,6 +21,8 @@ ASSUMPTIONS = [
     "a raising clientDisconnect hook (11 Exception subclasses) counts as the one hook call; BaseException-only classes are not tried",
     "item streams (generator results) are only opened and left unexhausted; fetching stream items and stream expiry are C10's subject; streams left by earlier cases are cleared from the daemon before a case",
     "which resource a class constructor tracks is told to the registered classes by the harness per request (same process)",
+    "oneway calls: only plain-object methods; the oneway thread's start is delayed from the harness process (Pyro5.server._OnewayCallThread.run wrapped) until the following events have been served; a oneway call that runs after its connection ended is outside the model; the model's reply code for a oneway request means 'executed'",
+    "flash connection (thread server): the accept thread is parked right after Worker.process(job) returned (wrapped) while the connection is served and ends",
     "worker hand-over interleaving (thread server) is forced from the harness process by wrapping Pool.notify_done / Pool.process (the worker parks right after handing itself back while the next connection is dispatched); other interleavings of the pool bookkeeping are C18's subject",
 ]
 IMPORTS = "From V Require Import Model.Cleanup Gen.GenCleanup Harness.Cmp Harness.H13."
@@ -56,7 +58,7 @@ def oracle(case, obs):
         for e in st["execs"]:
             # whatever user code ran while this event's request was being served (method body or constructor) belongs
             # to the connection the request was sent on, not to what the call context claimed
-            cid, act, r = (ev[1] if kind in ("req", "raise", "end") else e[0]), e[1], e[2]
+            cid, act, r = (ev[1] if kind in ("req", "raise", "end", "owrun") else e[0]), e[1], e[2]
             if act in ("track", "ctor"):
                 tracked.setdefault(cid, set()).add(r)
             elif act == "untrack":
@@ -154,6 +156,8 @@ def c_event(ev, st):
         return "Raise %s %s %s" % (cnat(ev[1]), c_target(ev[2], ev[4] if len(ev) > 4 else None), {"plain": "FPlain", "security": "FSecurity", "callback": "FCallback"}[ev[3]])
     if k == "timeout":
         return "Timeout %s %s" % (cnat(ev[1]), cnat(ev[2]))
+    if k == "owrun":      # a oneway request is, for cleanup, a request like any other: its tracking belongs to its connection
+        return "Req %s TPlain %s" % (cnat(ev[1]), c_action(ev[2], ev[3]))
     how = ev[2]
     if how in ("close", "reset"):
         return "End %s EClose" % cnat(ev[1])
@@ -182,8 +186,9 @@ def c_step(ev, st):
 
 def c_case(case, obs):
     I = impl()
-    evs = clist([c_event(ev, st) for ev, st in zip(case["events"], obs["steps"])])
-    steps = clist([c_step(ev, st) for ev, st in zip(case["events"], obs["steps"])])
+    pairs = [(ev, st) for ev, st in zip(case["events"], obs["steps"]) if ev[0] != "owsend"]   # sending a oneway call is not a model event
+    evs = clist([c_event(ev, st) for ev, st in pairs])
+    steps = clist([c_step(ev, st) for ev, st in pairs])
     hookfail = clist([cnat(int(c)) for c in sorted(case.get("hookfail") or {}, key=int)])
     return "{| k_thread := %s; k_pool := %s; k_hookfail := %s; k_events := %s; k_obs := %s |}" % (
         cbool(case["stype"] == "thread"), cnat(I.POOL), hookfail, evs, steps)
@@ -218,6 +223,28 @@ def gen_case(rng, stype, timeout, reqlen):
             if ok and (stype != "thread" or len(alive) < I.POOL):
                 alive.append(c)
                 idle = max(0, idle - 1)
+            continue
+        if not timeout and alive and rng.random() < 0.07:
+            # a oneway call on c whose thread starts only after the handler thread has served other requests
+            c = rng.choice(alive)
+            act, r = rng.choice(["track", "track", "untrack"]), rng.randrange(I.NRES)
+            evs.append(["owsend", c, act, r])
+            for _ in range(rng.choice([0, 1, 1, 2, 3])):
+                c2 = rng.choice(alive)
+                t2 = rng.choice(["S", "P", "P", "C"])
+                evs.append(["req", c2, t2, rng.choice(["track", "untrack", "nop", "nop"]), rng.randrange(I.NRES)] +
+                           ([rng.randrange(I.NRES)] if t2 != "P" and rng.random() < 0.4 else []))
+            evs.append(["owrun", c, act, r])
+            continue
+        if stype == "thread" and not timeout and len(alive) < I.POOL and rng.random() < 0.05:
+            # flash connection: lives and ends while the accept thread is still inside Pool.process
+            c = nextc
+            nextc += 1
+            evs.append(["connect", c, True, "held"])
+            for _ in range(rng.choice([0, 0, 1, 2])):
+                evs.append(["req", c, rng.choice(["S", "P"]), rng.choice(["track", "nop"]), rng.randrange(I.NRES)])
+            evs.append(["end", c, "close", "held"])
+            idle = max(idle, 1) if idle else 1
             continue
         c = rng.choice(alive)
         tgt = rng.choice(["S", "S", "P", "P", "C"])
@@ -333,6 +360,23 @@ def targeted(ctx, reqlen):
                 ["connect", 0, True], ["req", 0, "S", "stream", 0], ["req", 0, "P", "track", 2], ["end", 0, "close"],
                 ["connect", 1, True], ["req", 1, "P", "track", 3], ["end", 1, "close"], ["connect", 2, True], ["req", 2, "P", "stream", 0],
                 ["connect", 3, True], ["end", 3, "reset"], ["end", 2, "badser"]]})
+    # oneway calls that track / untrack, executed after the handler thread served another connection (multiplex) or a
+    # later request of the same connection (thread server); then either connection ends
+    for stype in ("thread", "multiplex"):
+        for act in ("track", "untrack"):
+            for mid in ([["req", 1, "P", "nop", 0]], [["req", 1, "S", "track", 4], ["req", 0, "P", "nop", 0], ["req", 1, "P", "nop", 0]],
+                        [["req", 0, "P", "track", 5]], []):
+                for tail in ([["end", 0, "close"], ["req", 1, "P", "nop", 0]], [["end", 1, "close"], ["req", 0, "P", "nop", 0], ["end", 0, "reset"]]):
+                    out.append({"stype": stype, "timeout": False, "events": [
+                        ["connect", 0, True], ["connect", 1, True], ["req", 0, "P", "track", 3], ["req", 1, "P", "track", 3],
+                        ["req", 1, "P", "track", 2], ["owsend", 0, act, 3 if act == "untrack" else 1]] + mid +
+                        [["owrun", 0, act, 3 if act == "untrack" else 1]] + tail})
+    # flash connection (thread server): accepted, served and ended while the accept thread is still inside Pool.process
+    for pre in ([], [["connect", 7, True]], [["connect", 7, True], ["connect", 8, True]]):
+        for mid in ([], [["req", 0, "S", "track", 1], ["req", 0, "P", "track", 2]]):
+            out.append({"stype": "thread", "timeout": False, "events": pre + [["connect", 0, True, "held"]] + mid +
+                        [["end", 0, "close", "held"], ["connect", 1, True], ["connect", 2, True], ["req", 2, "P", "track", 0]] +
+                        ([["connect", 3, True]] if len(pre) < 2 else []) + [["end", 1, "close"]]})
     # worker hand-over (thread server): the only worker returns to the pool exactly while the next connection is accepted
     for pre in ([], [["connect", 7, True]], [["connect", 7, True], ["connect", 8, True]]):
         for tail in ([["end", 1, "close"]], [["raise", 1, "S", "security"]],
@@ -406,7 +450,9 @@ def execute(ctx, cases, model_ok, res, stop_after=6):
             res.count("hook_raises_for_connections:%d" % len(case["hookfail"]))
         for ev in case["events"]:
             if ev[0] == "connect" and len(ev) > 3:
-                res.count("event:worker-handover")
+                res.count("event:worker-handover" if ev[3] == "gated" else "event:flash-connection")
+            if ev[0] == "owrun":
+                res.count("event:oneway:" + ev[2])
             if ev[0] == "req" and ev[3] == "stream":
                 res.count("event:req:stream")
             if (ev[0] == "req" and len(ev) > 5) or (ev[0] == "raise" and len(ev) > 4) or (ev[0] == "end" and len(ev) > 8):
